@@ -38,6 +38,26 @@ SuccessStatus(c) == CASE c.method \in {"create"} -> 201
                       [] c.method = "partial_update" -> 204       \* 200 with return-entity
                       [] OTHER -> 200
 HasRequestBody(c) == VerbFor(c.method) \in {"POST", "PUT"}
+\* request and response bodies (C03, last clause): kinds -- "none" (no body), "entity" (the record itself), "params" (an
+\* object of action parameters) or "object" with its required and allowed top-level members.  Where the resource
+\* definition decides between two shapes (return-entity, an action with or without result) both are admitted.
+Obj(needed, allowed) == [kinds |-> {"object"}, required |-> needed, allowed |-> allowed]
+Plain(kinds) == [kinds |-> kinds, required |-> {}, allowed |-> {}]
+RequestEnvelope(c) ==
+  CASE c.method \in {"create", "update"} -> Plain({"entity"})
+    [] c.method = "partial_update" -> Obj({"patch"}, {"patch"})
+    [] c.method = "batch_create" -> Obj({"elements"}, {"elements"})
+    [] c.method \in {"batch_update", "batch_partial_update"} -> Obj({"entities"}, {"entities"})
+    [] c.method = "action" -> Plain({"params"})
+    [] OTHER -> Plain({"none"})
+ResponseEnvelope(c) ==
+  CASE c.method = "get" -> Plain({"entity"})
+    [] c.method \in {"create", "partial_update"} -> Plain({"none", "entity"})
+    [] c.method \in {"update", "delete"} -> Plain({"none"})
+    [] c.method \in {"get_all", "finder"} -> Obj({"elements"}, {"elements", "paging", "metadata"})
+    [] c.method = "action" -> [kinds |-> {"none", "object"}, required |-> {"value"}, allowed |-> {"value"}]
+    [] c.method = "batch_create" -> Obj({"elements"}, {"elements"})
+    [] OTHER -> Obj({"results"}, {"results", "statuses", "errors"})       \* batch_get / _update / _partial_update / _delete
 
 VARIABLES call, cfg
 Configs == [threshold : {0, 1, 100000}, strict : BOOLEAN, ctx : BOOLEAN, mount : {"bare", "mux", "prefix"}, text : 1..6]
